@@ -79,6 +79,158 @@ MUTANTS = [
     (CALC, '::logneg_subsys', '            ** 2\n        )\n        return max(log2(psi_ab_ppt_norm), 0.0)', '        )\n        return max(log2(psi_ab_ppt_norm), 0.0)', 'expect-fail'),
     (CALC, '::logneg_subsys', 'return logneg(rho_ab, new_dims, new_sysa)', 'return logneg(rho_ab, dims, new_sysa)', 'expect-fail'),
     (CALC, '::logneg_subsys', 'psi_abc, dims, sysa, approx_thresh=approx_thresh, **approx_opts\n            )', 'psi_abc, dims, sysa, **approx_opts\n            )', 'expect-fail'),
+    # ---- one_way_classical_information / quantum_discord
+    (CALC, '::one_way_classical_information', 'p_ab_j = dot((eye(2) & prj), p_ab)', 'p_ab_j = dot((prj & eye(2)), p_ab)', 'expect-fail'),
+    (CALC, '::one_way_classical_information', 'p_a_j = ptr(p_ab_j, (2, 2), 0) / prob', 'p_a_j = ptr(p_ab_j, (2, 2), 1) / prob', 'expect-fail'),
+    (CALC, '::one_way_classical_information', 'p_a_j = ptr(p_ab_j, (2, 2), 0) / prob', 'p_a_j = ptr(p_ab_j, (2, 2), 0)', 'expect-fail'),
+    (CALC, '::one_way_classical_information', '    p_a = ptr(p_ab, (2, 2), 0)\n    s_a = entropy(p_a)', '    p_a = ptr(p_ab, (2, 2), 1)\n    s_a = entropy(p_a)', 'expect-fail'),
+    (CALC, '::one_way_classical_information', 'return s_a - sum(p * entropy(rho) for p, rho in gen_paj())', 'return s_a - sum(entropy(rho) for p, rho in gen_paj())', 'expect-fail'),
+    (CALC, '::one_way_classical_information', 'return owci if precomp_func else owci(prjs)', 'return owci if precomp_func else owci(prjs[:1])', 'expect-fail'),
+    (CALC, '::one_way_classical_information', 'return owci if precomp_func else owci(prjs)', 'return owci', 'expect-fail'),
+    (CALC, '::quantum_discord', '        p = ptr(p, dims, (sysa, sysb))\n    else:\n        p = qu(p, "dop")\n    iab', '        p = ptr(p, dims, (sysa,))\n    else:\n        p = qu(p, "dop")\n    iab', 'expect-fail'),
+    (CALC, '::quantum_discord', '    iab = mutual_information(p)\n    owci = one_way', '    iab = mutual_information(qu(p, "dop"))\n    owci = one_way', 'expect-fail'),
+    (CALC, '::quantum_discord', '        prjb = eye(2) - prja\n        return iab - owci((prja, prjb))', '        prjb = eye(2) - prja\n        return iab - owci((prja, prja))', 'expect-fail'),
+    (CALC, '::quantum_discord', '        return iab - owci((prja, prjb))', '        return iab + owci((prja, prjb))', 'expect-fail'),
+    (CALC, '::quantum_discord', 'ax, ay, az = sin(a[0]) * cos(a[1]), sin(a[0]) * sin(a[1]), cos(a[0])', 'ax, ay, az = sin(a[0]) * cos(a[1]), sin(a[0]) * sin(a[1]), cos(a[1])', 'expect-fail'),
+    (CALC, '::quantum_discord', '    if opt.success:\n        return opt.fun', '    if opt.success:\n        return iab', 'expect-fail'),
+    # ---- correlation / qid
+    (CALC, '::correlation', 'opab = ikron((A, B), dims, (sysa, sysb), **opts)', 'opab = ikron((A, B), dims, (sysb, sysa), **opts)', 'expect-fail'),
+    (CALC, '::correlation', 'B = ikron((B,), dims, sysb, **opts)', 'B = ikron((B,), dims, sysa, **opts)', 'expect-fail'),
+    (CALC, '::correlation', 'A = ikron((A,), dims, sysa, **opts)', 'A = ikron((A,), dims, sysa)', 'benign'),
+    (CALC, '::correlation', 'return expec(opab, state) - expec(A, state) * expec(B, state)', 'return expec(opab, state) - expec(A, state) * expec(A, state)', 'expect-fail'),
+    (CALC, '::correlation', '        dims = (2,) * sz_p\n    if sparse is None:', '        dims = (2,) * (sz_p - 1)\n    if sparse is None:', 'expect-fail'),
+    (CALC, '::correlation', 'sparse = issparse(A) or issparse(B)', 'sparse = issparse(A) and issparse(B)', 'benign'),
+    (CALC, '::correlation', '"stype": "csr" if sparse else None,', '"stype": None if sparse else "csr",', 'benign'),
+    (CALC, '::correlation', 'return corr if precomp_func else corr(p)', 'return corr(p)', 'expect-fail'),
+    (CALC, '::qid', 'tuple(ikron(pauli(s), dims, ind, sparse=sparse_comp) for s in "xyz")', 'tuple(ikron(pauli(s), dims, ind, sparse=sparse_comp) for s in "xyy")', 'expect-fail'),
+    (CALC, '::qid', 'tuple(ikron(pauli(s), dims, ind, sparse=sparse_comp) for s in "xyz")', 'tuple(ikron(pauli(s), dims, 0, sparse=sparse_comp) for s in "xyz")', 'expect-fail'),
+    (CALC, '::qid', 'coeff * norm_func(dot(x, op) - dot(op, x)) ** power', 'coeff * norm_func(dot(x, op) + dot(op, x)) ** power', 'expect-fail'),
+    (CALC, '::qid', 'coeff * norm_func(dot(x, op) - dot(op, x)) ** power', '(coeff * norm_func(dot(x, op) - dot(op, x))) ** power', 'expect-fail'),
+    (CALC, '::qid', '        if isvec(x):\n            x = dop(x)\n        return tuple(\n            sum(', '        return tuple(\n            sum(', 'expect-fail'),
+    (CALC, '::qid', 'inds = (inds,) if isinstance(inds, numbers.Number) else inds', 'inds = (inds, inds) if isinstance(inds, numbers.Number) else inds', 'expect-fail'),
+    # ---- ent_cross_matrix
+    (CALC, '::ent_cross_matrix', '    n = sz_p // sz_blc\n    ents = np.empty((n, n))', '    n = sz_p // sz_blc + 1\n    ents = np.empty((n, n))', 'expect-fail'),
+    (CALC, '::ent_cross_matrix', 'for i in range(0, sz_p - sz_blc + 1, sz_blc):', 'for i in range(0, sz_p - sz_blc, sz_blc):', 'expect-fail'),
+    (CALC, '::ent_cross_matrix', 'for i in range(0, sz_p - sz_blc + 1, sz_blc):', 'for i in range(0, sz_p, sz_blc):', 'expect-fail'),
+    (CALC, '::ent_cross_matrix', 'for j in range(i, sz_p - sz_blc + 1, sz_blc):', 'for j in range(i + sz_blc, sz_p - sz_blc + 1, sz_blc):', 'expect-fail'),
+    (CALC, '::ent_cross_matrix', '                        + [j + b for b in range(sz_blc)],', '                        + [j + b + 1 for b in range(sz_blc)],', 'expect-fail'),
+    (CALC, '::ent_cross_matrix', '                ents[j // sz_blc, i // sz_blc] = ent', '                ents[j // sz_blc, j // sz_blc] = ent', 'expect-fail'),
+    (CALC, '::ent_cross_matrix', '                ents[j // sz_blc, i // sz_blc] = ent', '                pass', 'expect-fail'),
+    (CALC, '::ent_cross_matrix', '                        rhoa = ptr(p, dims, [i + b for b in range(sz_blc)])', '                        rhoa = ptr(p, dims, [i + b for b in range(1)])', 'expect-fail'),
+    (CALC, '::ent_cross_matrix', '                    ent = ent_fn(rhoab, dims=(2**sz_blc, 2**sz_blc)) / sz_blc', '                    ent = ent_fn(rhoab, dims=(2**sz_blc, 2**sz_blc))', 'expect-fail'),
+    (CALC, '::ent_cross_matrix', '    if ispure and sz_blc * 2 == sz_p:  # pure bipartition', '    if ispure and sz_blc * 2 <= sz_p:  # pure bipartition', 'expect-fail'),
+    (CALC, '::ent_cross_matrix', '        if not calc_self_ent:\n            for i in range(n):\n                ents[i, i] = np.nan', '        if not calc_self_ent:\n            for i in range(1, n):\n                ents[i, i] = np.nan', 'expect-fail'),
+    (CALC, '::ent_cross_matrix', '                    j * sz_blc : (j + 1) * sz_blc,\n                ] = ents[i, j]', '                    j * sz_blc : (j + 1) * sz_blc + 1,\n                ] = ents[i, j]', 'expect-fail'),
+    (CALC, '::ent_cross_matrix', '                    i * sz_blc : (i + 1) * sz_blc,\n                ] = ents[j, i]', '                    i * sz_blc : (i + 1) * sz_blc,\n                ] = ents[i, i]', 'expect-fail'),
+    (CALC, '::ent_cross_matrix', '            for j in range(i, n):\n                up_ents[', '            for j in range(i + 1, n):\n                up_ents[', 'expect-fail'),
+    (CALC, '::ent_cross_matrix', '        up_ents = np.tile(np.nan, (sz_p, sz_p))', '        up_ents = np.tile(np.nan, (n * sz_blc, n * sz_blc))', 'expect-fail'),
+    (CALC, '::ent_cross_matrix', '                if i == j:\n                    if calc_self_ent:', '                if i >= j:\n                    if calc_self_ent:', 'benign'),
+    # ---- simulate_counts (E1; on the unchanged tree the base obligation fails: finding C20-e)
+    (CALC, '::simulate_counts', 'raw_counts = rng.choice(d, size=C, p=pi)', 'raw_counts = rng.choice(d, size=C + 1, p=pi)', 'expect-fail'),
+    (CALC, '::simulate_counts', 'raw_counts = rng.choice(d, size=C, p=pi)', 'raw_counts = rng.choice(d - 1, size=C, p=pi)', 'expect-fail'),
+    (CALC, '::simulate_counts', 'raw_counts = rng.choice(d, size=C, p=pi)', 'raw_counts = rng.choice(d, size=C)', 'expect-fail'),
+    (CALC, '::simulate_counts', '    d = phys_dim**n\n\n    if isop(p):', '    d = n**phys_dim\n\n    if isop(p):', 'expect-fail'),
+    (CALC, '::simulate_counts', 'bin_str = "{:0>" + str(n) + "b}"', 'bin_str = "{:0>" + str(n + 1) + "b}"', 'expect-fail'),
+    (CALC, '::simulate_counts', 'bin_str = "{:0>" + str(n) + "b}"', 'bin_str = "{:>" + str(n) + "b}"', 'expect-fail'),
+    (CALC, '::simulate_counts', 'bin_str = "{:0>" + str(n) + "b}"', 'bin_str = "{:0<" + str(n) + "b}"', 'expect-fail'),
+    (CALC, '::simulate_counts', '        pi = np.diag(p).real\n', '        pi = np.diag(p).real ** 2\n', 'expect-fail'),
+    (CALC, '::simulate_counts', '    rng = np.random.default_rng(seed)', '    rng = np.random.default_rng(0)', 'expect-fail'),
+    (CALC, '::simulate_counts', '    n = infer_size(p, phys_dim)', '    n = infer_size(p)', 'expect-fail'),
+    # ---- dephase (E1; on the unchanged tree the integer kind fails for rand_rank = 1: finding C20-f)
+    (CALC, '::dephase', '        rand_rank = min(max(1, rand_rank), d)', '        rand_rank = min(max(1, rand_rank), d - 1)', 'expect-fail'),
+    (CALC, '::dephase', '        rand_rank = min(max(1, rand_rank), d)', '        rand_rank = max(1, rand_rank)', 'expect-fail'),
+    (CALC, '::dephase', '        if not isinstance(rand_rank, numbers.Integral):\n            rand_rank = int(rand_rank * d)', '        if isinstance(rand_rank, numbers.Integral):\n            rand_rank = int(rand_rank * d)', 'expect-fail'),
+    (CALC, '::dephase', 'nnz = np.random.choice(np.arange(d), size=rand_rank, replace=False)', 'nnz = np.random.choice(np.arange(d), size=rand_rank, replace=True)', 'expect-fail'),
+    (CALC, '::dephase', '        dephaser_diag[nnz] = 1 / rand_rank', '        dephaser_diag[nnz] = 1 / d', 'expect-fail'),
+    (CALC, '::dephase', '        dephaser = eye(d) / d\n', '        dephaser = eye(d)\n', 'expect-fail'),
+    (CALC, '::dephase', '    return (1 - p) * rho + p * dephaser', '    return p * rho + (1 - p) * dephaser', 'expect-fail'),
+    (CALC, '::dephase', 'nnz = np.random.choice(np.arange(d), size=rand_rank, replace=False)', 'nnz = np.random.choice(np.arange(d - 1), size=rand_rank, replace=False)', 'expect-fail'),
+    # ---- kraus_op
+    (CALC, '::kraus_op', 'Ei_inds = ("K", *(f"i{q}" for q in where), *(f"i*{q}" for q in where))', 'Ei_inds = ("K", *(f"i*{q}" for q in where), *(f"i{q}" for q in where))', 'expect-fail'),
+    (CALC, '::kraus_op', '            *(f"j*{q}" if q in where else f"j{q}" for q in range(N)),', '            *(f"j{q}" for q in range(N)),', 'expect-fail'),
+    (CALC, '::kraus_op', '        kdims = tuple(dims[i] for i in where)', '        kdims = tuple(dims[i] for i in sorted(where))', 'expect-fail'),
+    (CALC, '::kraus_op', '        rho = rho.reshape(dims + dims)', '        rho = rho.reshape(dims[::-1] + dims)', 'expect-fail'),
+    (CALC, '::kraus_op', '        out = (*(f"i{q}" for q in range(N)), *(f"j{q}" for q in range(N)))', '        out = (*(f"j{q}" for q in range(N)), *(f"i{q}" for q in range(N)))', 'expect-fail'),
+    (CALC, '::kraus_op', '        SEk = np.einsum("kij,kil", Ek.conj(), Ek)', '        SEk = np.einsum("kji,kli", Ek.conj(), Ek)', 'expect-fail'),
+    (CALC, '::kraus_op', '        SEk = np.einsum("kij,kil", Ek.conj(), Ek)', '        SEk = np.einsum("kij,kil", Ek, Ek)', 'expect-fail'),
+    (CALC, '::kraus_op', '        if norm(SEk - eye(Ek.shape[-1]), "fro") > 1e-12:', '        if norm(SEk - eye(Ek.shape[-1]), "fro") < 1e-12:', 'expect-fail'),
+    (CALC, '::kraus_op', '    if int(dims is None) + int(where is None) == 1:', '    if int(dims is None) + int(where is None) == 2:', 'expect-fail'),
+    (CALC, '::kraus_op', '        rho_inds = ("i*", "j*")\n', '        rho_inds = ("j*", "i*")\n', 'expect-fail'),
+    (CALC, '::kraus_op', '        sigma = sigma.reshape(prod(dims), prod(dims))', '        sigma = sigma.reshape(prod(dims), -1)', 'expect-fail'),
+    (CALC, '::kraus_op', '        Ej_inds = ("K", *(f"j{q}" for q in where), *(f"j*{q}" for q in where))', '        Ej_inds = ("K", *(f"j{q}" for q in reversed(where)), *(f"j*{q}" for q in reversed(where)))', 'expect-fail'),
+    # ---- projector / measure
+    (CALC, '::projector', '    which = np.argwhere(abs(el - eigenvalue) < tol)', '    which = np.argwhere(abs(el + eigenvalue) < tol)', 'expect-fail'),
+    (CALC, '::projector', '    which = np.argwhere(abs(el - eigenvalue) < tol)', '    which = np.argwhere((el - eigenvalue) < tol)', 'expect-fail'),
+    (CALC, '::projector', '        vi = ev[:, i]\n        P += vi @ vi.H', '        vi = ev[:, i]\n        P += vi @ vi.H\n        P += vi @ vi.H', 'expect-fail'),
+    (CALC, '::projector', '        vi = ev[:, i]\n        P += vi @ vi.H', '        vi = ev[:, i]\n        P = P', 'expect-fail'),
+    (CALC, '::projector', '        vi = ev[:, i]\n        P += vi @ vi.H', '        vi = ev[:, i + 1]\n        P += vi @ vi.H', 'expect-fail'),
+    (CALC, '::projector', '        el, ev = eigh(A, autoblock=autoblock)', '        el, ev = eigh(A)', 'expect-fail'),
+    (CALC, '::projector', '    P = np.zeros_like(ev)\n    for i in which:', '    P = np.zeros_like(ev)\n    for i in which[1:]:', 'expect-fail'),
+    (CALC, '::measure', '    P = projector((el, ev), eigenvalue=eigenvalue, tol=tol)', '    P = projector((el, ev), eigenvalue=eigenvalue)', 'expect-fail'),
+    (CALC, '::measure', '    total_prob = np.sum(pj[abs(el - eigenvalue) < tol])', '    total_prob = np.sum(pj[abs(el - eigenvalue) < 2 * tol])', 'expect-fail'),
+    (CALC, '::measure', '            ("jk", "kl", "lj"),', '            ("jk", "kl", "jl"),', 'expect-fail'),
+    (CALC, '::measure', '        j = np.random.choice(js, p=pj)\n        eigenvalue = el[j]', '        j = np.random.choice(js, p=pj)\n        eigenvalue = el[j - 1]', 'expect-fail'),
+    (CALC, '::measure', '        j = np.random.choice(js, p=pj)', '        j = np.random.choice(js)', 'expect-fail'),
+    (CALC, '::measure', '        p_after = P @ (p / total_prob**0.5)', '        p_after = P @ (p / total_prob)', 'expect-fail'),
+    (CALC, '::measure', '        p_after = (P @ p @ P.H) / total_prob', '        p_after = (P @ p) / total_prob', 'expect-fail'),
+    (CALC, '::measure', '    return eigenvalue, p_after', '    return p_after, eigenvalue', 'expect-fail'),
+    (CALC, '::measure', '    js = np.arange(el.size)', '    js = np.arange(el.size - 1)', 'expect-fail'),
+    # ---- lazy_ptr_linop / lazy_ptr_ppt_linop
+    (APX, '::lazy_ptr_linop', '            ("bA{}" if i in sysa else "xB{}").format(i)\n            for i in range(len(dims))', '            ("bA{}" if i in sysa else "yB{}").format(i)\n            for i in range(len(dims))', 'expect-fail'),
+    (APX, '::lazy_ptr_linop', '            ("kA{}" if i in sysa else "xB{}").format(i)\n            for i in range(len(dims))', '            ("kA{}" if i not in sysa else "xB{}").format(i)\n            for i in range(len(dims))', 'expect-fail'),
+    (APX, '::lazy_ptr_linop', '[f"kA{i}" for i in sysa], [f"bA{i}" for i in sysa], **linop_opts', '[f"kA{i}" for i in sysa], [f"bA{i}" for i in sorted(sysa)], **linop_opts', 'expect-fail'),
+    (APX, '::lazy_ptr_linop', '[f"kA{i}" for i in sysa], [f"bA{i}" for i in sysa], **linop_opts', '[f"kA{i}" for i in sysa], [f"bA{i}" for i in sysa]', 'expect-fail'),
+    (APX, '::lazy_ptr_linop', '[f"kA{i}" for i in sysa], [f"bA{i}" for i in sysa], **linop_opts', '[f"kA{i}" for i in sysa[:1]], [f"bA{i}" for i in sysa[:1]], **linop_opts', 'expect-fail'),
+    (APX, '::lazy_ptr_linop', '        Kab.data.conjugate(),\n        inds=[\n            ("bA{}"', '        Kab.data,\n        inds=[\n            ("bA{}"', 'expect-fail'),
+    (APX, '::lazy_ptr_linop', '        np.asarray(psi_ab).reshape(dims),\n        inds=[\n            ("kA{}"', '        np.asarray(psi_ab).reshape(dims[::-1]),\n        inds=[\n            ("kA{}"', 'expect-fail'),
+    (APX, '::lazy_ptr_linop', '            ("bA{}" if i in sysa else "xB{}").format(i)\n            for i in range(len(dims))', '            ("bA{}" if i in sysa else "xB{}").format(len(dims) - 1 - i)\n            for i in range(len(dims))', 'expect-fail'),
+    (APX, '::lazy_ptr_ppt_linop', '        [("bA{}" if i in sysa else "kB{}").format(i) for i in sys_ab],\n        [("kA{}" if i in sysa else "bB{}").format(i) for i in sys_ab],',
+     '        [("kA{}" if i in sysa else "kB{}").format(i) for i in sys_ab],\n        [("bA{}" if i in sysa else "bB{}").format(i) for i in sys_ab],', 'expect-fail'),
+    (APX, '::lazy_ptr_ppt_linop', '        [("bA{}" if i in sysa else "kB{}").format(i) for i in sys_ab],\n        [("kA{}" if i in sysa else "bB{}").format(i) for i in sys_ab],',
+     '        [("bA{}" if i in sysa else "kB{}").format(i) for i in sys_ab],\n        [("kA{}" if i in sysa else "bB{}").format(i) for i in reversed(sys_ab)],', 'expect-fail'),
+    (APX, '::lazy_ptr_ppt_linop', '        [("bA{}" if i in sysa else "kB{}").format(i) for i in sys_ab],\n        [("kA{}" if i in sysa else "bB{}").format(i) for i in sys_ab],',
+     '        [("bA{}" if i in sysb else "kB{}").format(i) for i in sys_ab],\n        [("kA{}" if i in sysb else "bB{}").format(i) for i in sys_ab],', 'expect-fail'),
+    (APX, '::lazy_ptr_ppt_linop', '            ("bA{}" if i in sysa else "bB{}" if i in sysb else "xC{}").format(\n                i\n            )', '            ("bA{}" if i in sysa else "bB{}" if i in sysb else "yC{}").format(\n                i\n            )', 'expect-fail'),
+    (APX, '::lazy_ptr_ppt_linop', '            ("kA{}" if i in sysa else "kB{}" if i in sysb else "xC{}").format(\n                i\n            )', '            ("kA{}" if i in sysa else "xC{}" if i in sysb else "xC{}").format(\n                i\n            )', 'expect-fail'),
+    (APX, '::lazy_ptr_ppt_linop', '    sys_ab = sorted(sysa + sysb)', '    sys_ab = sorted(sysa)', 'expect-fail'),
+    (APX, '::lazy_ptr_ppt_linop', '        **linop_opts,\n    )\n\n\n# ----', '    )\n\n\n# ----', 'expect-fail'),
+    (APX, '::lazy_ptr_ppt_linop', '    sys_ab = sorted(sysa + sysb)', '    sys_ab = sorted(sysa + sysb)[::-1]', 'benign'),
+    # ---- providers (fdx / E4): the mutated source is loaded as a scratch module and the provider is run on it
+    (CALC, 'fdx:provider_pauli_decomp', 'for perm in itertools.product(fn_args, repeat=n):', 'for perm in itertools.combinations_with_replacement(fn_args, n):', 'expect-fail'),
+    (CALC, 'fdx:provider_pauli_decomp', 'op = kron(*(fn(x, sparse=True) for x in perm)) * nmlz_func(n)', 'op = kron(*(fn(x, sparse=True) for x in perm))', 'expect-fail'),
+    (CALC, 'fdx:provider_pauli_decomp', 'names_cffs.sort(key=lambda pair: -abs(pair[1]))', 'names_cffs.sort(key=lambda pair: abs(pair[1]))', 'expect-fail'),
+    (CALC, 'fdx:provider_pauli_decomp', 'yield "".join(str(x) for x in perm), cff', 'yield "".join(str(x) for x in reversed(perm)), cff', 'expect-fail'),
+    (CALC, 'fdx:provider_pauli_decomp', 'op = kron(*(fn(x, sparse=True) for x in perm)) * nmlz_func(n)', 'op = kron(*(fn(x, sparse=True) for x in perm)) * nmlz_func(n - 1)', 'expect-fail'),
+    (CALC, 'fdx:provider_decomp_partials', 'decomp, fn=pauli, fn_args="IXYZ", fn_d=2, nmlz_func=lambda n: 2**-n', 'decomp, fn=pauli, fn_args="IXYZ", fn_d=2, nmlz_func=lambda n: 2**-(n + 1)', 'expect-fail'),
+    (CALC, 'fdx:provider_decomp_partials', 'decomp, fn=pauli, fn_args="IXYZ", fn_d=2, nmlz_func=lambda n: 2**-n', 'decomp, fn=pauli, fn_args="IXYZ", fn_d=2, nmlz_func=lambda n: 2**n', 'expect-fail'),
+    (CALC, 'fdx:provider_decomp_partials', 'decomp, fn=pauli, fn_args="IXYZ", fn_d=2, nmlz_func=lambda n: 2**-n', 'decomp, fn=pauli, fn_args="IXZZ", fn_d=2, nmlz_func=lambda n: 2**-n', 'expect-fail'),
+    (CALC, 'fdx:provider_decomp_partials', 'decomp, fn=pauli, fn_args="IXYZ", fn_d=2, nmlz_func=lambda n: 2**-n', 'decomp, fn=pauli, fn_args="IXYZ", fn_d=2, nmlz_func=lambda n: 1 / 2**n', 'benign'),
+    (CALC, 'fdx:provider_decomp_partials', 'decomp, fn=bell_state, fn_args=(0, 1, 2, 3), fn_d=4, nmlz_func=lambda x: 1', 'decomp, fn=bell_state, fn_args=(0, 1, 2), fn_d=4, nmlz_func=lambda x: 1', 'expect-fail'),
+    (CALC, 'fdx:provider_pauli_correlations', 'p, pauli(s1), pauli(s2), sysa, sysb, precomp_func=precomp_func', 'p, pauli(s2), pauli(s1), sysa, sysb, precomp_func=precomp_func', 'expect-fail'),
+    (CALC, 'fdx:provider_pauli_correlations', 'p, pauli(s1), pauli(s2), sysa, sysb, precomp_func=precomp_func', 'p, pauli(s1), pauli(s2), sysb, sysa, precomp_func=precomp_func', 'expect-fail'),
+    (CALC, 'fdx:provider_pauli_correlations', '        return sum((abs(corr) for corr in gen_corr_list()))', '        return sum((corr for corr in gen_corr_list()))', 'expect-fail'),
+    (CALC, 'fdx:provider_pauli_correlations', 'return lambda p: sum((abs(corr(p)) for corr in gen_corr_list()))', 'return lambda p: abs(sum((corr(p) for corr in gen_corr_list())))', 'expect-fail'),
+    (CALC, 'fdx:provider_pauli_correlations', 'p, pauli(s1), pauli(s2), sysa, sysb, precomp_func=precomp_func', 'p, pauli(s1), pauli(s2), sysa, sysb', 'expect-fail'),
+    (CALC, 'fdx:provider_simulate_counts', 'bin_str = "{:0>" + str(n) + "b}"', 'bin_str = "{:0>" + str(n) + "o}"', 'expect-fail'),
+    (CALC, 'fdx:provider_simulate_counts', 'bin_str = "{:0>" + str(n) + "b}"', 'bin_str = "{:0>" + str(n + 1) + "b}"', 'expect-fail'),
+    (CALC, 'fdx:provider_simulate_counts', 'raw_counts = rng.choice(d, size=C, p=pi)', 'raw_counts = rng.choice(d, size=C + 1, p=pi)', 'expect-fail'),
+    (CALC, 'fdx:provider_simulate_counts', '        pi = np.diag(p).real\n', '        pi = np.diag(p[::-1, ::-1]).real\n', 'expect-fail'),
+    (CALC, 'fdx:provider_correlation_grid', 'opab = ikron((A, B), dims, (sysa, sysb), **opts)', 'opab = ikron((A, B), dims, (sysb, sysa), **opts)', 'expect-fail'),
+    (CALC, 'fdx:provider_correlation_grid', 'return expec(opab, state) - expec(A, state) * expec(B, state)', 'return expec(opab, state) - expec(A, state) - expec(B, state)', 'expect-fail'),
+    (CALC, 'fdx:provider_correlation_grid', '    B = ikron((B,), dims, sysb, **opts)', '    B = ikron((B,), dims, sysa, **opts)', 'expect-fail'),
+    # ---- purify / concurrence
+    (CALC, '::purify', 'psi += evals * kron(vs[:, [i]], basis_vec(i, d))', 'psi += evals * kron(vs[:, [i]], basis_vec(d - 1 - i, d))', 'expect-fail'),
+    (CALC, '::purify', 'psi += evals * kron(vs[:, [i]], basis_vec(i, d))', 'psi += evals * kron(vs[:, [0]], basis_vec(i, d))', 'expect-fail'),
+    (CALC, '::purify', 'psi += evals * kron(vs[:, [i]], basis_vec(i, d))', 'psi += kron(vs[:, [i]], basis_vec(i, d))', 'expect-fail'),
+    (CALC, '::purify', '    evals = np.sqrt(np.clip(evals, 0, 1))', '    evals = np.clip(evals, 0, 1)', 'expect-fail'),
+    (CALC, '::purify', '    psi = np.zeros(shape=(d**2, 1), dtype=complex)', '    psi = np.zeros(shape=(d * 2, 1), dtype=complex)', 'expect-fail'),
+    (CALC, '::purify', 'psi += evals * kron(vs[:, [i]], basis_vec(i, d))', 'psi += evals * kron(vs[:, [i]], basis_vec(i, d + 1))', 'expect-fail'),
+    (CALC, '::purify', 'psi += evals * kron(vs[:, [i]], basis_vec(i, d))', 'psi += evals * kron(vs[:, [i]], basis_vec(i, d))\n        psi += evals * kron(vs[:, [i]], basis_vec(i, d))', 'expect-fail'),
+    (CALC, '::concurrence', '        p = ptr(p, dims, (sysa, sysb))\n\n    Y = pauli("Y")', '        p = ptr(p, dims, (sysa,))\n\n    Y = pauli("Y")', 'expect-fail'),
+    (CALC, '::concurrence', '        p = ptr(p, dims, (sysa, sysb))\n\n    Y = pauli("Y")', '        p = ptr(p, dims[::-1], (sysa, sysb))\n\n    Y = pauli("Y")', 'expect-fail'),
+    (CALC, '::concurrence', '        p = ptr(p, dims, (sysa, sysb))\n\n    Y = pauli("Y")', '        q = ptr(p, dims, (sysa, sysb))\n\n    Y = pauli("Y")', 'expect-fail'),
+    (CALC, '::concurrence', '    if len(dims) > 2:\n        p = ptr(p, dims, (sysa, sysb))\n\n    Y = pauli("Y")', '    if len(dims) > 3:\n        p = ptr(p, dims, (sysa, sysb))\n\n    Y = pauli("Y")', 'expect-fail'),
+    (CALC, '::concurrence', '        p = ptr(p, dims, (sysa, sysb))\n\n    Y = pauli("Y")', '        p = ptr(p, dims, (sysb, sysa))\n\n    Y = pauli("Y")', 'benign'),
 ]
 
 _BASELINE = {}
